@@ -147,7 +147,11 @@ def o_setattr(case):
                 raise Fail("wrong-exception", f"m.{name} = {_r(val)} raised {type(e).__name__}") from e
             else:
                 raise Fail("assignment-accepted", f"m.{name} = {_r(val)} on a {before[1]} message did not raise")
-    after = snapshot(m)
+    try:
+        after = snapshot(m)
+    except Exception as e:  # pylint: disable=broad-except
+        # payload / identity / str() / serialize() worked before the attempts and do not work now
+        raise Fail("state-changed", f"{before[1]}: after attempts on {touched[:8]} the message can no longer be inspected: {type(e).__name__}: {e}") from e
     if after != before:
         which = [n for n, (a, b) in enumerate(zip(before, after)) if a != b]
         raise Fail("state-changed", f"{before[1]}: snapshot components {which} changed after attempts on {touched[:8]}")
